@@ -4,11 +4,11 @@
 // in Props/C08.lean: three entrances, every case under recover(), and in child processes so that
 // crashes recover() cannot catch (fatal errors, stack overflow) are attributed to one case.
 //
-//   library : Parse / Compile / Run / Marshal / Preview / Error() on byte-level mutations of the
-//             corpus queries, grammar-generated queries over every builtin with wrong-typed and
-//             boundary arguments, inputs over all Go carriers incl. NaN/±Inf/invalid UTF-8
-//   iterator: extra Next() calls after exhaustion and after errors
-//   command : random flag / argument / stdin combinations through the real cli.run
+//	library : Parse / Compile / Run / Marshal / Preview / Error() on byte-level mutations of the
+//	          corpus queries, grammar-generated queries over every builtin with wrong-typed and
+//	          boundary arguments, inputs over all Go carriers incl. NaN/±Inf/invalid UTF-8
+//	iterator: extra Next() calls after exhaustion and after errors
+//	command : random flag / argument / stdin combinations through the real cli.run
 package main
 
 import (
@@ -415,6 +415,24 @@ func main() {
 			}
 		}
 		dist["lib:index-limits"] = n
+	}
+	// code points at every boundary of Unicode and UTF-16 (surrogates high/low, in and out of order,
+	// first and last of each range), in every position of the array given to implode, and the
+	// strings they make through the string natives
+	{
+		cps := []string{"-1", "0", "127", "128", "2047", "2048", "55295", "55296", "55357", "56319", "56320", "56832", "57343", "57344", "65533", "65535", "65536", "1114111", "1114112", "55357.9", "5.5357e4", "nan", "null", "\"a\""}
+		n := 0
+		for _, x := range cps {
+			for _, f := range []string{"[%X] | implode", "[97, %X] | implode", "[%X, 97] | implode", "[97, 98, %X] | implode | explode", "[range(%X - 4; %X + 4)] | implode | length", "[%X] | implode | @json, @uri, ascii_downcase, length, utf8bytelength"} {
+				cases = append(cases, caseT{Kind: "lib", Src: strings.ReplaceAll(f, "%X", x), Input: "n"})
+				n++
+			}
+			for _, y := range cps {
+				cases = append(cases, caseT{Kind: "lib", Src: "[" + x + ", " + y + "] | implode", Input: "n"})
+				n++
+			}
+		}
+		dist["lib:code-point-boundaries"] = n
 	}
 	// path LISTS given to delpaths / setpath chains: every ordered pair and triple of a pool of
 	// overlapping and ill-typed paths (an earlier path changes the container a later one fails
